@@ -361,6 +361,15 @@ static void nested(unsigned long long& unit)
 				g_cases++;
 				ld ex = (form == 2 ? 2 * M_PIl - 0.5L : 2 * M_PIl) * (form == 1 ? 1.0L : 2.0L) * (R(rr.second) - R(rr.first));
 				if(!(fabsl(v - ex) <= 3e-9L * fabsl(ex))) fail("spherical", key, "not_solid_angle_times_radial_integral", "Integrate_3D with defaulted angles = " + mc::dec(v) + " expected " + mc::dec((double)ex));
+				// the same three forms with a direction-dependent integrand (round 10: a whole-sphere shortcut that evaluates the
+				// integrand on one axis only is exact for isotropic integrands): cos^2(theta) weights the polar integral by c^2
+				auto fz = [&](Vector w) { double r = w.Norm(), c = w[2] / r; return std::exp(-r) * (1 + r) * c * c; };
+				double vz = 0;
+				if(mc::library_exits([&]() { vz = form == 0 ? Integrate_3D(fz, rr.first, rr.second) : form == 1 ? Integrate_3D(fz, rr.first, rr.second, -0.25, 0.75) : Integrate_3D(fz, rr.first, rr.second, -1.0, 1.0, 0.5); })) { fail("spherical", key, "terminated_process", "valid request ended the process"); continue; }
+				g_cases++;
+				ld pol = form == 1 ? (0.75L * 0.75L * 0.75L + 0.25L * 0.25L * 0.25L) / 3 : 2.0L / 3;
+				ld exz = (form == 2 ? 2 * M_PIl - 0.5L : 2 * M_PIl) * pol * (R(rr.second) - R(rr.first));
+				if(!(fabsl(vz - exz) <= 3e-9L * fabsl(exz))) fail("spherical", key, "anisotropic_integrand_wrong", "Integrate_3D(cos^2(theta) g(r)) with defaulted angles = " + mc::dec(vz) + " expected " + mc::dec((double)exz));
 			}
 }
 
